@@ -18,6 +18,7 @@ pub enum Sc14 {
 
 pub fn client_profile() -> CProfile {
     CProfile {
+        w_stepcoop: 3,
         w_step: 30,
         w_drain: 8,
         w_newcall: 22,
